@@ -98,9 +98,9 @@ NET_NOTE = ("Trusted base: tokio current_thread scheduler with paused clock (sch
             "(h2's own handshake deadlocks on smaller ones) and GET bodies carry exact size hints (hyper does not chunk GET bodies).")
 
 CHECKS.update({
-    "C01": dict(engine="netsim+poolsim", ref="§5 C01, §4 E2/E1",
+    "C01": dict(engine="netsim+poolsim+tcpe2e", ref="§5 C01, §4 E2/E1",
         technique="end-to-end property-based testing in virtual time: generated concurrent request scripts with id-tagged payloads through the real client stack, pool, hyper and Server; two-directional oracle (handler checks every request, client checks every response); plus a pool-level leg requiring every uncancelled request of a fault-free history to succeed",
-        text="Up to 8/24 concurrent requests over 1-3 h1/h2/auto servers with streamed patterned bodies, generated header sets on requests and responses (repeated names, empty, 3 kB and opaque non-ASCII values, compared per name and in order), chunked responses, handler delays, cancellations at any instant, pool on/off and all pool settings, followed redirects (303 to another origin; every hop must name the origin it is sent to), and HTTP/1.1 protocol upgrades (101 followed by a raw patterned exchange over the taken-over connection, checked at both ends incl. end-of-stream, never followed by another request on that connection): every handled request must carry exactly what its caller sent and every uncancelled request must complete with the response produced for its own id and origin. The open finding (KNOWN_FINDINGS.txt) is matched by signature and does not mask other violations.",
+        text="Up to 8/24 concurrent requests over 1-3 h1/h2/auto servers with streamed patterned bodies, generated header sets on requests and responses (repeated names, empty, 3 kB and opaque non-ASCII values, compared per name and in order), chunked responses, handler delays, cancellations at any instant, pool on/off and all pool settings, followed redirects (303 to another origin; every hop must name the origin it is sent to), and HTTP/1.1 protocol upgrades (101 followed by a raw patterned exchange over the taken-over connection, checked at both ends incl. end-of-stream, never followed by another request on that connection): every handled request must carry exactly what its caller sent and every uncancelled request must complete with the response produced for its own id and origin. A real-socket leg drives the default Client (Client::build_tcp_http: TCP transport, system resolver, default pool/redirects/timeout) through request() and its tower Service impl against a real Server on loopback TCP. The open finding (KNOWN_FINDINGS.txt) is matched by signature and does not mask other violations.",
         note=NET_NOTE),
     "C07": dict(engine="netsim", ref="§5 C07, §4 E2",
         technique="virtual-time schedule generation: the graceful-shutdown signal instant is swept relative to accept, protocol detection, request transfer, handler execution and response transfer; history invariants over the handler log, the executor-wrapped connection tasks and the client results",
